@@ -53,6 +53,7 @@ func SetModel(m map[string]uint64) {
 	model = m
 	counts = map[string]int{}
 	Failures, Observed, Reached = nil, nil, nil
+	FixedClockNs = 0
 }
 
 func next(name string) uint64 {
@@ -252,3 +253,9 @@ func GetReached() []string {
 
 // DeepEqual is reflect.DeepEqual; under the executor the result may be symbolic.
 func DeepEqual(a, b interface{}) bool { return reflect.DeepEqual(a, b) }
+
+// FixedClockNs, when non-zero, is the instant every clock reading taken by PD code returns.
+var FixedClockNs int64
+
+// FixClock pins the clock seen by PD code to the given unix nanoseconds (0 = back to symbolic readings).
+func FixClock(ns int64) { FixedClockNs = ns }
